@@ -107,9 +107,9 @@ func c10ServerCase(e *c10Env, cw *c10World, pos c10Pos, plain bool, m c10Mutant)
 			Impl: fmt.Sprint(run.panicVal), PropertyFails: true})
 		return
 	}
-	if rt.srvAlloc > c10AllocBound(len(rt.wire)) {
+	if rt.srvAlloc > c10AllocBoundAt(name, len(rt.wire)) {
 		e.x.r.Violate(rep.Violation{Kind: "oracle", Check: "C10.alloc-bound", Signature: "C10.alloc:" + name + ":" + m.class, Input: input,
-			Impl: fmt.Sprintf("server allocated %d bytes handling a %d-byte request (bound %d)", rt.srvAlloc, len(rt.wire), c10AllocBound(len(rt.wire))), PropertyFails: true})
+			Impl: fmt.Sprintf("server allocated %d bytes handling a %d-byte request (bound %d)", rt.srvAlloc, len(rt.wire), c10AllocBoundAt(name, len(rt.wire))), PropertyFails: true})
 	}
 	c10CheckAnswer(e, name, input, pos.reqType, rt.status, rt.respType, rt.respBody, m.class)
 	e.x.r.Sample(map[string]string{"position": name, "mutation": m.what, "answer": rt.respType, "status": strconv.Itoa(rt.status)}, 12)
